@@ -173,6 +173,86 @@ func runC08(w *World, r *Report) {
 		}
 	}
 
+	// ------------------------------------------------------------ R-C08-4
+	// The interpreter shadows the state of every program mutex (to refuse an Unlock of an
+	// unlocked mutex instead of dying in the Go runtime).  The shadow is consistent only if it
+	// is written by the holder: after the native Unlock/RUnlock another goroutine owns the mutex.
+	r.Rule("R-C08-4", "shadow lock state is written by the holder only: in callMutexMethod / callRWMutexMethod no write of the lock-state bookkeeping is reachable after the native Unlock / RUnlock of the same call", 3)
+
+	for _, name := range []string{"callMutexMethod", "callRWMutexMethod"} {
+		fn := w.ssaFunc(bp, name)
+		if fn == nil {
+			r.Anchor("R-C08-4", "bytecode."+name)
+
+			continue
+		}
+
+		isShadowWrite := func(in ssa.Instruction) bool {
+			c, ok := in.(*ssa.Call)
+			if !ok || len(c.Call.Args) == 0 {
+				return false
+			}
+
+			id := callID(c.Common())
+
+			switch {
+			case strings.HasPrefix(id, "sync.Map."):
+				switch strings.TrimPrefix(id, "sync.Map.") {
+				case "Store", "Delete", "Swap", "CompareAndSwap", "LoadOrStore", "LoadAndDelete":
+					g, ok := c.Call.Args[0].(*ssa.Global)
+
+					return ok && strings.HasSuffix(g.Name(), "LockState")
+				}
+			case strings.HasPrefix(id, "sync/atomic."):
+				if !(strings.HasSuffix(id, ".Store") || strings.HasSuffix(id, ".Add") || strings.HasSuffix(id, ".Swap") || strings.HasSuffix(id, ".CompareAndSwap")) {
+					return false
+				}
+
+				fa, ok := c.Call.Args[0].(*ssa.FieldAddr)
+				if !ok {
+					return false
+				}
+
+				n := namedOf(fa.X.Type())
+
+				return n != nil && strings.HasSuffix(n.Obj().Name(), "MutexState")
+			}
+
+			return false
+		}
+
+		n := 0
+
+		allInstrs(fn, func(in ssa.Instruction) {
+			c, ok := in.(*ssa.Call)
+			if !ok {
+				return
+			}
+
+			op, ok := mutexOp(c.Common())
+			if !ok || (op.kind != "Unlock" && op.kind != "RUnlock") || strings.Contains(op.id, ".") {
+				return // only the program's own mutex (held in a local)
+			}
+
+			n++
+
+			key := "bytecode." + name + "|no bookkeeping after " + op.kind
+			if n > 1 {
+				key += "#" + sprintInt(n)
+			}
+
+			if late := pathAvoiding(in, nil, func(ssa.Instruction) bool { return false }, isShadowWrite); late != nil {
+				r.Violate("R-C08-4", key, w.pos(in.Pos()), "the lock-state bookkeeping is written at "+w.pos(late.Pos())+" after the mutex has been released: a waiter that takes the mutex in between has its 'locked' mark overwritten, its own Unlock is then refused, and every other goroutine waits for ever")
+			} else {
+				r.Discharge("R-C08-4", key, w.pos(in.Pos()), "bookkeeping precedes the release")
+			}
+		})
+
+		if n == 0 {
+			r.Anchor("R-C08-4", "native Unlock in bytecode."+name)
+		}
+	}
+
 	// ------------------------------------------------------------ R-C08-3
 	var chanFns []*ssa.Function
 
